@@ -282,8 +282,13 @@ fn make_prior(fx: &Fixtures, prior: &str, data: &Path) {
             copy_dir(&cur, data);
             match p {
                 "current" => {}
-                "other-version" => std::fs::write(&meta, fx.current_meta.replace("\"version\":\"", "\"version\":\"9.")).unwrap(),
-                "other-hash" => std::fs::write(&meta, fx.current_meta.replace("\"database_hash\":\"", "\"database_hash\":\"0")).unwrap(),
+                "other-version" | "other-hash" => {
+                    // edited as JSON, so that the layout of the file (compact, pretty-printed) does not matter
+                    let mut m: serde_json::Value = serde_json::from_str(&fx.current_meta).unwrap();
+                    let (key, pre) = if p == "other-version" { ("version", "9.") } else { ("database_hash", "0") };
+                    m[key] = serde_json::Value::String(format!("{pre}{}", m[key].as_str().unwrap_or("")));
+                    std::fs::write(&meta, serde_json::to_string(&m).unwrap()).unwrap()
+                }
                 "meta-missing" => std::fs::remove_file(&meta).unwrap(),
                 "meta-empty" => std::fs::write(&meta, "").unwrap(),
                 "meta-braces" => std::fs::write(&meta, "{}").unwrap(),
